@@ -100,6 +100,6 @@ def query_sqlite_to_csv(query_text, db_connection, input_table_name, output_path
         rbql_engine.query(query_text, input_iterator, output_writer, output_warnings, join_tables_registry, user_init_code)
     finally:
         if close_output_on_finish:
-            output_stream.close()
+            rbql_csv.close_ignoring_broken_pipe(output_stream)
 
 
